@@ -92,7 +92,7 @@ fn kernighan_lin_2_impl<T>(
             }
 
             // find max gain for first part
-            let (max_pos_1, max_gain_1) = gains
+            let Some((max_pos_1, max_gain_1)) = gains
                 .iter()
                 .zip(locks.iter())
                 .zip(weights.iter())
@@ -102,7 +102,10 @@ fn kernighan_lin_2_impl<T>(
                 })
                 .map(|(idx, ((gain, _), _))| (idx, *gain))
                 .max_by(|(_, g1), (_, g2)| g1.partial_cmp(g2).unwrap())
-                .unwrap();
+            else {
+                // every vertex of the first part has been flipped already
+                break;
+            };
 
             // update gain of neighbors
             for (j, w) in adjacency.neighbors(max_pos_1) {
@@ -114,7 +117,7 @@ fn kernighan_lin_2_impl<T>(
             }
 
             // find max gain for second part
-            let (max_pos_2, max_gain_2) = gains
+            let Some((max_pos_2, max_gain_2)) = gains
                 .iter()
                 .zip(locks.iter())
                 .zip(weights.iter())
@@ -124,7 +127,10 @@ fn kernighan_lin_2_impl<T>(
                 })
                 .map(|(idx, ((gain, _), _))| (idx, *gain))
                 .max_by(|(_, g1), (_, g2)| g1.partial_cmp(g2).unwrap())
-                .unwrap();
+            else {
+                // every vertex of the second part has been flipped already
+                break;
+            };
 
             let total_gain = max_gain_1 + max_gain_2;
 
